@@ -547,7 +547,16 @@ func (f *Frame) convert(in *ssa.Convert) {
 		h := e.comp(f.st, comp, e.elemSort(elem))
 		e.setComp(f.st, comp, fmt.Sprintf("(store %s %s (go.bytes %s))", h, ref, x))
 		n := fmt.Sprintf("(str.len %s)", x)
+		// string([]byte(s)) == s
+		e.bytesDecls()
+		e.assume(f.reach, fmt.Sprintf("(= (go.bytes2str (go.bytes %s) 0 %s) %s)", x, n, x))
 		f.setVal(in, fmt.Sprintf("(mkSlice %s 0 %s %s)", ref, n, n))
+	case isByteSlice(from) && isString(to) && !e.bv():
+		// string(bs): an uninterpreted function of the backing row, the offset and the length
+		e.bytesDecls()
+		elem := from.Underlying().(*types.Slice).Elem()
+		h := e.comp(f.st, elemCompName(e, elem), e.elemSort(elem))
+		f.setVal(in, fmt.Sprintf("(go.bytes2str (select %s (s_arr %s)) (s_off %s) (s_len %s))", h, x, x, x))
 	case isRuneSlice(from) && isString(to) && !e.bv():
 		// string(rs): an uninterpreted function of the backing row, the offset and the length
 		e.runeDecls()
@@ -1700,6 +1709,14 @@ func isByteSlice(t types.Type) bool {
 }
 
 // runeDecls declares the uninterpreted functions of the string <-> []rune model (mode int only).
+func (e *Enc) bytesDecls() {
+	if e.ufSeen["go.bytes2str"] {
+		return
+	}
+	e.ufSeen["go.bytes2str"] = true
+	e.ufDecls = append(e.ufDecls, "(declare-fun go.bytes2str ((Array Int Int) Int Int) String)")
+}
+
 func (e *Enc) runeDecls() {
 	if e.ufSeen["go.runes"] {
 		return
